@@ -89,8 +89,10 @@ class _PokTranslator(_util.OverrideableDataDesc):
         self.kwoarg_names |= other.kwoarg_names
 
         from sigtools import wrappers
+        # binding re-applies the stack in decoration order: a range form
+        # (start=, end=) reads the signature the modifiers below it produce
         self.custom_getter = wrappers.Combination(
-            self.custom_getter, other.custom_getter)
+            other.custom_getter, self.custom_getter)
 
     def _prepare(self):
         intersection = self.posoarg_names & self.kwoarg_names
